@@ -42,10 +42,27 @@ def run_cases(res, cases, plans=None, label=''):
     returns list of (case, plan, impl, model_response or None)"""
     plans = plans or [((), 'ValueError')] * len(cases)
     reqs = [proggen.model_req(c, f, fc) for c, (f, fc) in zip(cases, plans)]
-    resp = common.run_driver(reqs) if res is None or res.have_driver else [None] * len(cases)
+    if res is None or res.have_driver:
+        # in chunks, each with its own time limit: a program that is exponential work (for the code and the model alike)
+        # must not take the whole run with it; its chunk is left out of the comparison and counted
+        resp = []
+        for i in range(0, len(reqs), 400):
+            chunk = reqs[i:i + 400]
+            try:
+                resp += common.run_driver(chunk, timeout=600)
+            except Exception as e:  # noqa
+                if 'TimeoutExpired' not in type(e).__name__ and 'timed out' not in str(e):
+                    raise
+                resp += [None] * len(chunk)
+                if res is not None:
+                    res.count('driver_chunk_timed_out')
+    else:
+        resp = [None] * len(cases)
     out = []
     for c, (f, fc), rp in zip(cases, plans, resp):
         guard = proggen.recording_guard(c.get('denied', []), c.get('deniedItems', [])) if c.get('guard') else None
+        if rp is None and (res is None or res.have_driver):
+            continue          # the model did not answer in time: the real code is not asked either
         impl = proggen.run_impl(c, f, fc, guard=guard)
         m = rp.get('ok') if rp else None
         if rp is not None and m is None:
